@@ -225,7 +225,7 @@ def call (ev : Val → Val) (st : State) (full : Sel) (σ : Scope) (args : List 
 end State
 
 mutual
-  /-- `_iterate_flattened_values`: strings are leaves, mappings contribute their values only,
+  /-- `_iterate_flattened_values`: strings are leaves, mappings contribute their keys and their values,
       other iterables their elements; the value itself comes last. -/
   def flattenVal : Val → List Val
     | .list xs => flattenVals xs ++ [.list xs]
@@ -238,7 +238,7 @@ mutual
     | x :: xs => flattenVal x ++ flattenVals xs
   def flattenDictVals : List (Val × Val) → List Val
     | [] => []
-    | (_, v) :: rest => flattenVal v ++ flattenDictVals rest
+    | (k, v) :: rest => flattenVal k ++ flattenVal v ++ flattenDictVals rest
 end
 
 namespace State
